@@ -1330,7 +1330,7 @@ fn c02m(args: &Args) -> ! {
 fn c10cli(args: &Args) -> ! {
     use std::convert::TryFrom;
     use varlink_parser::{Format, FormatColored, IDL};
-    let mut rep = Report::new("C10", "the command-line tool: `varlink --color {on,off} format [-c W] FILE` for 8 definitions (docs, nested structs/enums, long names, CRLF input, three files of ~14 KiB with multi-byte characters at every alignment relative to 4 KiB / 8 KiB) x widths {default, 0, 1, 30, 60, 80, 120, 1000}: stdout must be exactly the library's top-level rendering at that width (plain or colored) plus a newline, and must parse back to the same definition; non-trivial = distinct (definition, width, colour)");
+    let mut rep = Report::new("C10", "the command-line tool: `varlink --color {on,off} format [-c W] FILE` for 21 definitions (docs, nested structs/enums, long names, CRLF input, 16 files of 4-8 KiB in which a 2-, 3- or 4-byte character or the line end U+2028 straddles the 4096 / 8192 byte offset at every possible split) x widths {default, 0, 1, 30, 60, 80, 120, 1000}: stdout must be exactly the library's top-level rendering at that width (plain or colored) plus a newline, and must parse back to the same definition; non-trivial = distinct (definition, width, colour)");
     if !Path::new(VARLINK_CLI).exists() {
         machinery("varlink CLI binary missing (./check --setup builds it)");
     }
@@ -1343,15 +1343,36 @@ fn c10cli(args: &Args) -> ! {
         format!("interface x-y.z9\nerror {} ()\ntype S ()\nmethod M{}() -> ()", "E".repeat(30), "m".repeat(40)),
         std::fs::read_to_string("/repo/varlink-certification/src/org.varlink.certification.varlink").unwrap_or_else(|_| "interface a.c\nmethod X()->()\n".into()),
     ];
-    // files larger than any read chunk, with multi-byte characters (in documentation, and U+2028 as a line end) at every
-    // alignment relative to the 4 KiB and 8 KiB offsets
+    // files larger than any read chunk: for each of the offsets 4096 and 8192, a 2-, 3- and 4-byte character (in a
+    // documentation comment) and the 3-byte line end U+2028 placed so that it starts 1..w-1 bytes before the offset
     let mut texts = texts;
-    for shift in 0..3usize {
-        let mut t = format!("# {}big\ninterface org.example.big\n", "x".repeat(shift));
-        for i in 0..40 {
-            t += &format!("\n# member {} \u{20ac}{} \u{e9}\u{1F600} end\u{2028}method M{}(a: int, note: ?string) -> (r: []string)\n", i, "\u{20ac}".repeat(97), i);
+    for boundary in [4096usize, 8192] {
+        for (ch, w) in [("\u{e9}", 2usize), ("\u{20ac}", 3), ("\u{1F600}", 4), ("\u{2028}", 3)] {
+            for j in 1..w {
+                let mut t = String::from("# big\ninterface org.example.big\n");
+                let mut i = 0;
+                // ordinary members up to shortly before the boundary
+                while t.len() + 200 < boundary - j {
+                    t += &format!("\n# member {}\nmethod M{}(a: int, note: ?string) -> (r: []string)\n", i, i);
+                    i += 1;
+                }
+                // a comment padded so that the character starts exactly j bytes before the boundary
+                t += "\n# ";
+                let pad = boundary - j - t.len();
+                t += &"x".repeat(pad);
+                debug_assert_eq!(t.len(), boundary - j);
+                t += ch;
+                if ch == "\u{2028}" {
+                    t += &format!("method Straddle{}() -> ()\n", j);
+                } else {
+                    t += &format!(" end\nmethod Straddle{}() -> ()\n", j);
+                }
+                for k in 0..3 {
+                    t += &format!("\n# tail {}\nmethod T{}() -> ()\n", k, k);
+                }
+                texts.push(t);
+            }
         }
-        texts.push(t);
     }
     let replay = args.replay_case();
     let mut idx = 0u64;
